@@ -59,6 +59,8 @@ open Bpmn.Props.C12 Bpmn.Props.EngineCurrent
 #print axioms Bpmn.Props.C12Turns.find_other
 #print axioms Bpmn.Props.C12Turns.nextTurn_comm
 #print axioms Bpmn.Props.C12Turns.nextTurn_twice
+#print axioms Bpmn.Props.C12Turns.filter_drop_head
+#print axioms Bpmn.Props.C12Turns.turns_fifo
 #print axioms Bpmn.Props.C12.current_activations_take_turns
 #print axioms Bpmn.Props.C12Turns.answer_payload_irrelevant
 #print axioms Bpmn.Props.C12Turns.turnsRun_any_payload
